@@ -28,7 +28,7 @@ def parse_args(text, stage, directs):
 def observe_graph(case, doc, manifest):
     """L1: the replicated WorkflowGraph. Returns the observation dict (see oracle.compare)."""
     import experiment.model.graph
-    wg = experiment.model.graph.WorkflowGraph.graphFromFlowIR(copy.deepcopy(doc), dict(manifest), primitive=False)
+    wg = experiment.model.graph.WorkflowGraph.graphFromFlowIR(copy.deepcopy(doc), dict(manifest), platform=case.get('platform'), primitive=False)
     g = wg.graph
     directs = model.direct_names(case)
     nodes = {}
@@ -67,10 +67,10 @@ def _node_key(g, nid):
     return (int(m.group(1)), m.group(2))
 
 
-def primitive_loads(doc, manifest):
+def primitive_loads(doc, manifest, platform=None):
     import experiment.model.graph
     try:
-        experiment.model.graph.WorkflowGraph.graphFromFlowIR(copy.deepcopy(doc), dict(manifest), primitive=True).graph
+        experiment.model.graph.WorkflowGraph.graphFromFlowIR(copy.deepcopy(doc), dict(manifest), platform=platform, primitive=True).graph
         return True, None
     except Exception as e:
         return False, '%s: %s' % (type(e).__name__, str(e)[:500])
@@ -81,7 +81,7 @@ def observe_flowir_nodes(case, doc, manifest):
     import experiment.model.frontends.flowir as F
     top = sorted(set(k.split('/')[0] for k in (manifest or {})))
     try:
-        rep = F.FlowIRConcrete(F.deep_copy(doc), 'default', {}).replicate(top_level_folders=top)
+        rep = F.FlowIRConcrete(F.deep_copy(doc), case.get('platform') or 'default', {}).replicate(top_level_folders=top)
     except Exception as e:
         return None, {'error': '%s: %s' % (type(e).__name__, str(e)[:300])}
     directs = model.direct_names(case)
@@ -134,22 +134,22 @@ def victims(case, rep, j):
             continue
         for ev in c['refs']:
             v = comps[ev['p']]
-            if ev['p'] == ea['p'] or (ev['file'], ev['method']) != (ea['file'], ea['method']):
+            if ev['p'] == ea['p'] or (model.norm_path(ev['file']), ev['method']) != (model.norm_path(ea['file']), ea['method']):
                 continue
             if v['name'].endswith(a['name']):
                 out.append({'kind': 'suffix' if len(v['name']) > len(a['name']) else 'samename',
-                            'a': ea['p'], 'v': ev['p'], 'file': ea['file'], 'method': ea['method']})
+                            'a': ea['p'], 'v': ev['p'], 'file': model.norm_path(ea['file']), 'method': ea['method']})
             elif rep[j] is None and re.escape(a['name']) != a['name'] and _safe_fullmatch(a['name'], v['name']) \
                     and 'path' in (ea.get('arg'), ev.get('arg')):
-                out.append({'kind': 'regex-dot', 'a': ea['p'], 'v': ev['p'], 'file': ea['file'],
+                out.append({'kind': 'regex-dot', 'a': ea['p'], 'v': ev['p'], 'file': model.norm_path(ea['file']),
                             'method': ea['method']})
         if rep[j] is None and ea.get('arg') == 'path2':
-            out.append({'kind': 'multi-path', 'a': ea['p'], 'file': ea['file'], 'method': ea['method']})
+            out.append({'kind': 'multi-path', 'a': ea['p'], 'file': model.norm_path(ea['file']), 'method': ea['method']})
         short_body = a['name'] + ('/' + ea['file'] if ea['file'] else '')
         for d in c.get('direct') or []:
             body, method = d.split(':')
             if method == ea['method'] and body.endswith(short_body) and body != short_body:
-                out.append({'kind': 'direct-suffix', 'a': ea['p'], 'direct': [body, method], 'file': ea['file'],
+                out.append({'kind': 'direct-suffix', 'a': ea['p'], 'direct': [body, method], 'file': model.norm_path(ea['file']),
                             'method': ea['method']})
     return out
 
@@ -315,7 +315,7 @@ def run_case(col, case):
         raise
     except Exception as e:
         err = '%s: %s' % (type(e).__name__, re.sub(r'\s+', ' ', str(e))[:600])
-        ok, why = primitive_loads(doc, manifest)
+        ok, why = primitive_loads(doc, manifest, case.get('platform'))
         if not ok:
             raise HarnessError('generated document does not load even without replication (generator problem or '
                                'an unrelated breakage): case=%r error=%s' % (case, why))
@@ -358,7 +358,7 @@ def canon_short(x):
 
 
 # ------------------------------------------------------------------------------------------------ enumeration
-RULE = ('Abstract workflows (components, stages, typed consumer->producer edges) are enumerated completely in five '
+RULE = ('Abstract workflows (components, stages, typed consumer->producer edges) are enumerated completely in six '
         'families and each is turned into a FlowIR document: '
         'S = every DAG shape with 2..3 components (2..4 thorough) over <=2 stages x every assignment of a replica '
         'request (one component with N in {1,2,3}, or two components with (2,2),(2,3),(3,2)) and of the aggregate flag '
@@ -367,7 +367,11 @@ RULE = ('Abstract workflows (components, stages, typed consumer->producer edges)
         'variable: defined globally, in the stage, in the component, and one name defined in several scopes '
         '(global + other components, global + other stage, stage over global, component over stage over global, stage '
         '+ other components; 4 components: global, stage, global + other components), for two requesters also both '
-        'through the same name defined in each component; '
+        'through the same name defined in each component; further (single requester N=2) the count as a component '
+        'variable defined through another variable that is global / in the stage while the other components shadow it, '
+        'and on a second platform `big` (observed with platform=big) with the name defined in two of default global, '
+        'default stage, platform global, platform stage, component (and on the default platform with decoys in the '
+        'platform scopes); the aggregate flag given through such a variable chain with the other components shadowing it; '
         'N = two producers X,Y feeding one consumer (optionally X->Y), stages 000/001/011 (quick: request on Y alone '
         'only where X and Y are in different stages, the rest is covered by swapping the names), every ordered pair of names '
         'from the collision alphabet {A,AA,BA,AB,A-B,A.B,x}(+{B7,A_B} thorough) incl. the same name in two stages, '
@@ -380,6 +384,8 @@ RULE = ('Abstract workflows (components, stages, typed consumer->producer edges)
         'application dependency, absolute path, and two paths that end with the producer name) one at a time and all '
         'together, on the consumer / the producer / both; '
         'P = replicated producer (N in {1,2,3}) -> consumer whose command line names two files under one reference; '
+        'F = replicated producer -> consumer for every path spelling (none, out.txt, d/f, d/, d/e/) x method (ref copy '
+        'link, output for files), reference in the arguments or not; '
         'L = two-digit replica indices: N=11 (thorough 10,11,12), X->C and X->M->C over one or two stages, last '
         'component aggregating or not, both spellings, plain and `ref/path` argument forms. '
         'A case is non-trivial when at least one component consumes from the replicated region (so a reference must '
@@ -401,6 +407,10 @@ ASSUMPTIONS = [
     'a replica count given through a variable is the value the documented layering (global < stage < component '
     'definition, property C04) makes visible to the requesting component; definitions of the same name in other '
     'components or other stages are not visible to it',
+    'platform layering as documented (C04): default global < default stage < platform global < platform stage < '
+    'component definition; variable references are substituted until none of a defined variable remains',
+    'a path with a trailing separator (d/) names the same location as without it: paths are compared after removing '
+    'trailing separators',
     'a relative spelling denotes a producer in the consumer\'s own stage: a command line that spells a producer of '
     'another stage relatively is not a valid workflow (the loader rejects it unreplicated) and is not generated',
     'component names are limited to the stated alphabets; <=4 components, <=2 stages, N<=3 (and 10..12 in family L); methods ref copy link '
